@@ -52,7 +52,7 @@ import "strings"
 //@   ensures [C16] stopped: old(s.err) != nil ==> !result && s.st == old(s.st) && s.err == old(s.err) && s.buf.pos == old(s.buf.pos) && s.cur.n == old(s.cur.n)
 //@   ensures [C16] refines: old(s.err) == nil ==> s.st == gst && s.cur.n == gn && forall k int :: {s.cur.data[k]} 0 <= k && k < gn ==> s.cur.data[k] == gtok[k]
 //@   ensures [C16] emitted: old(s.err) == nil && s.err == nil ==> result && ga == emit && s.st == stBreak
-//@   ensures [C16] eof: old(s.err) == nil && s.err != nil ==> s.err == io.EOF && s.buf.pos == len(s.buf.input) && result == (s.st != stBreak)
+//@   ensures [C16] eof: old(s.err) == nil && s.err != nil ==> s.buf.pos == len(s.buf.input) && (s.buf.broken <==> s.err != io.EOF) && (s.err == io.EOF ==> result == (s.st != stBreak)) && (s.err != io.EOF ==> !result)
 //@   modifies s.st, s.err, s.buf.pos, s.cur.n, s.cur.data
 //@   at entry: ghost gn = 0
 //@   at entry: ghost gst = s.st
